@@ -46,9 +46,10 @@ func (e *Executor) Run(ctx context.Context, calls ...*Call) error {
 		task, err := e.GetTask(call)
 		if err != nil {
 			if _, ok := err.(*errors.TaskNotFoundError); ok {
-				if _, err := e.ListTasks(ListOptions{ListOnlyTasksWithDescriptions: true}); err != nil {
-					return err
-				}
+				// The list of available tasks is only a help for the user: if
+				// it cannot be produced (another task does not compile), the
+				// answer is still that the requested task does not exist.
+				_, _ = e.ListTasks(ListOptions{ListOnlyTasksWithDescriptions: true})
 			}
 			return err
 		}
